@@ -275,7 +275,7 @@ pub fn gen_instance(rng: &mut Rng, root: &T) -> Vec<String> {
 /// a tagged member is recognised by its tag and by its block-ness, blocks close with `/end TAG`.
 /// `lenient` adds what the non-strict reader tolerates with a diagnostic: an identifier where a string is defined,
 /// and a string longer than `char[n]`.
-/// `None`: the reference does not decide this input (a non-repeatable tag occurs twice, float range).
+/// `None`: the reference does not decide this input (empty content, float range).
 pub fn conforms(root: &T, toks: &[String], lenient: bool) -> Option<bool> {
     if toks.is_empty() {
         // an IF_DATA block without content is never interpreted by the library (it has nothing to keep or to lose)
@@ -372,8 +372,9 @@ impl<'a> Matcher<'a> {
                         Err(()) => return false,
                         Ok(None) => return true,
                         Ok(Some(tg)) => {
+                            // only members defined as ("TAG" ...)* may occur more than once
                             if !tg.repeat && seen.contains(&tg.tag.as_str()) {
-                                self.unsure = true;
+                                return false;
                             }
                             seen.push(tg.tag.as_str());
                         }
